@@ -151,8 +151,8 @@ def run (args : List String) : String :=
     -- source type | target type | value 1 | value 2 : the same destination is converted into twice (types
     -- without maps); the second conversion gives what a fresh destination gives, value 1 does not matter
     match splitBar rest with
-    | [st, tt, _, vt] =>
-      match parseType st, parseType tt, parseVal vt with
+    | st :: tt :: _ :: vals =>
+      match parseType st, parseType tt, (vals.getLast?.bind parseVal) with
       | some (s, []), some (t, []), some (v, []) =>
         match convert nativeOps t v with
         | .error _ => "err"
